@@ -24,7 +24,8 @@ from .simfs import SimFS, ROOT
 from scinumtools.dip import DIP, Format
 
 NAMES = ["a", "b", "c", "d", "e", "f", "gg", "hh", "x1", "y_2", "size", "mass", "flag", "label"]
-GROUPS = ["box", "sim", "out", "grp", "inner", "cfg"]
+# box/box2 and cfg/cfgx share a prefix on purpose: child queries must not match siblings
+GROUPS = ["box", "sim", "out", "grp", "inner", "cfg", "box2", "cfgx"]
 WORDS = ["dog", "cat", "horse", "abc", "x", "New York", "run-1", "zeta", "A1"]
 FORMATS = [("[a-z]+", ["dog", "cat", "abc", "zeta"], ["A1", "New York", "X"]),
            ("[A-Z][0-9]", ["A1", "B7"], ["dog", "a1", "1A"]),
@@ -301,7 +302,7 @@ class RoundGen:
             if ok:
                 return copy.deepcopy(rng.choice(ok))
         if typ in ("int", "float") and node["condition"] is not None:
-            lo, hi, closed = cond_range(node)
+            lo, hi, closed = cond_range(node, self.g.units)
             for _ in range(30):
                 if lo is not None and hi is not None and rng.random() < self.cfg["p_boundary"]:
                     v = rng.choice(closed) if closed else self.number(typ, lo, hi)
@@ -359,7 +360,7 @@ class RoundGen:
                     v = base + rng.choice([1, -1, 3]) if typ == "int" else \
                         float(f"{base * rng.choice([1.01, 0.9, 2.0]) + rng.choice([0, 0.5]):.6g}")
             else:
-                lo, hi, _ = cond_range(node)
+                lo, hi, _ = cond_range(node, self.g.units)
                 if typ in ("int", "float") and lo is not None and hi is not None:
                     span = max(hi - lo, 1)
                     v = self.number(typ, hi + 0.05 * span + 1, hi + 2 * span + 2) \
@@ -459,8 +460,14 @@ class RoundGen:
                 if typ == "float":
                     lo, hi = float(f"{lo:.6g}"), float(f"{hi:.6g}")
                 cu = node["unit"] if rng.random() < 0.6 else None
+                llo, lhi = lo, hi
+                if typ == "float" and node["unit"] is not None and rng.random() < 0.4:
+                    # bounds written in another unit of the node's dimension
+                    cu = self.other_unit(node, typ)
+                    llo, _ = self.express(node, lo, cu)
+                    lhi, _ = self.express(node, hi, cu)
                 ops = rng.choice([(">=", "<="), (">", "<"), (">=", "<"), (">", "<=")])
-                expr = ["and", ["cmp", ops[0], lo, cu], ["cmp", ops[1], hi, cu]]
+                expr = ["and", ["cmp", ops[0], llo, cu], ["cmp", ops[1], lhi, cu]]
                 closed = []
                 if ops[0] == ">=":
                     closed.append(lo)
@@ -468,7 +475,9 @@ class RoundGen:
                     closed.append(hi)
                 if rng.random() < 0.25:
                     extra = hi + span * 4
-                    expr = ["or", expr, ["cmp", "==", extra, cu]]
+                    lextra = self.express(node, extra, cu)[0] if cu not in (None, node["unit"]) \
+                        else extra
+                    expr = ["or", expr, ["cmp", "==", lextra, cu]]
                     closed.append(extra)
             elif typ == "str" and cfg["nonnumeric_conditions"]:
                 a, b = rng.sample(WORDS, 2)
@@ -489,7 +498,7 @@ class RoundGen:
                 if typ == "str":
                     opts.append(rng.choice(WORDS))
                 else:
-                    lo, hi, _ = cond_range(node)
+                    lo, hi, _ = cond_range(node, self.g.units)
                     opts.append(self.number(typ, lo, hi))
             if v is not None and not isinstance(v, list) and rng.random() < 0.85:
                 opts.insert(rng.randrange(len(opts) + 1), v)
@@ -559,7 +568,7 @@ class RoundGen:
         if node["unsigned"] and v is not None and not isinstance(v, (str, bool)):
             v = DM.map_leaves(v, abs)
         on_boundary = typ in ("int", "float") and not isinstance(v, list) and v is not None \
-            and v in cond_range(node)[2]
+            and v in cond_range(node, self.g.units)[2]
         if typ in ("int", "float") and v is not None:
             r = rng.random()
             if on_boundary:
@@ -724,6 +733,59 @@ class RoundGen:
                   "unit": unit, "slice": sl, "dims": dims}
         self.emit(st)
 
+    def s_compare(self):
+        """flag bool = ("{?a} > {?b}") between two stored numeric nodes of one dimension."""
+        rng = self.rng
+        nums = [p for p, n in self.g.nodes.items() if n["type"] in ("int", "float")
+                and n["value"] is not None and not isinstance(n["value"], list)]
+        if len(nums) < 2:
+            return
+        a = rng.choice(nums)
+        na = self.g.nodes[a]
+        same = [p for p in nums if p != a and self.g.nodes[p]["type"] == na["type"]
+                and (self.g.nodes[p]["unit"] is None) == (na["unit"] is None)
+                and (na["unit"] is None or self.g.units.dims(self.g.nodes[p]["unit"]) ==
+                     self.g.units.dims(na["unit"]))]
+        if not same:
+            return
+        b = rng.choice(same)
+        chain = self.pick_chain()
+        name = self.fresh_name(chain)
+        if name is None:
+            return
+        indent = self.goto(chain)
+        self.emit({"k": "cmp_expr", "indent": indent, "name": name, "left": a, "right": b,
+                   "cmp": rng.choice(["<", ">", "<=", ">="])})
+
+    def s_function(self, fault=None):
+        rng = self.rng
+        chain = self.pick_chain()
+        name = self.fresh_name(chain)
+        if name is None:
+            return
+        kind = rng.choice(["const", "const", "scribble", "double"])
+        if fault == "callback_raises":
+            kind = "raise"
+            self.fault_label = "callback_raises"
+        st = {"k": "fn", "name": name, "fname": f"fn{len(self.stmts)}_{rng.randint(0, 99)}"}
+        if kind == "double":
+            cands = [p for p, n in self.g.nodes.items()
+                     if n["type"] == "float" and isinstance(n["value"], float) and n["value"] != 0]
+            if not cands:
+                kind = "const"
+            else:
+                p = rng.choice(cands)
+                st.update(type="float", unit=self.g.nodes[p]["unit"], fn={"kind": "double", "path": p})
+        if kind in ("const", "scribble", "raise"):
+            typ = rng.choice(["float", "int", "str", "bool"])
+            v = self.scalar_value(typ)
+            if not v:
+                v = {"float": 2.5, "int": 3, "str": "dog", "bool": True}[typ]
+            fam, unit = self.unit_for(typ)
+            st.update(type=typ, unit=unit, fn={"kind": kind, "value": v})
+        st["indent"] = self.goto(chain)
+        self.emit(st)
+
     def s_import(self, fault=None):
         rng = self.rng
         doms = [(s, e) for s, e in self.ref_candidates() if e.nodes]
@@ -766,26 +828,68 @@ class RoundGen:
             self.chain_valid = False
 
 
-def cond_range(node):
-    """(lo, hi, closed boundary values) of a generated numeric condition, in the node's unit
-    (the generator writes condition literals in the node's unit or without unit)."""
+def cond_range(node, units=None):
+    """(lo, hi, closed boundary values) of a generated numeric condition, in the node's unit.
+    Literals written in another unit are converted and rounded to 12 significant digits
+    (they were generated from short decimals in the node's unit)."""
     e = node.get("condition")
     closed = []
+
+    def in_node_unit(c):
+        v, u = c[2], c[3]
+        if isinstance(v, (str, bool)):
+            return None
+        if units is not None and u is not None and node["unit"] is not None and u != node["unit"]:
+            x = float(v) * units.factor(u) / units.factor(node["unit"])
+            return float(f"{x:.12g}")
+        return v
     if not e:
         return None, None, closed
     if e[0] == "or":
-        closed.append(e[2][2])
+        x = in_node_unit(e[2])
+        if x is not None:
+            closed.append(x)
         e = e[1]
     if e[0] != "and" or e[1][0] != "cmp" or e[2][0] != "cmp":
         return None, None, closed
-    lo, hi = e[1][2], e[2][2]
-    if isinstance(lo, (str, bool)) or isinstance(hi, (str, bool)):
+    lo, hi = in_node_unit(e[1]), in_node_unit(e[2])
+    if lo is None or hi is None:
         return None, None, []
     if e[1][1] == ">=":
         closed.append(lo)
     if e[2][1] == "<=":
         closed.append(hi)
     return lo, hi, closed
+
+
+class CallbackFault(Exception):
+    pass
+
+
+def make_callback(st, stats):
+    """The user function behind `name T = (fname)`: the callback seam of the DIP parser."""
+    fn = st["fn"]
+
+    def callback(data):
+        if fn["kind"] == "raise":
+            stats.fault("callback_raise", True)
+            raise CallbackFault("injected failure in " + st["fname"])
+        if fn["kind"] == "double":
+            return 2.0 * data[fn["path"]].value
+        if fn["kind"] == "scribble":
+            # a hostile callback: overwrite and delete what it was handed
+            stats.fault("callback_scribble", True)
+            for k in list(data):
+                try:
+                    data[k].value = "junk"
+                    data[k].unit = "furlong"
+                except Exception:
+                    pass
+            for k in list(data)[::2]:
+                del data[k]
+            data["intruder"] = 1
+        return fn["value"]
+    return callback
 
 
 def all_leaves(v, pred):
@@ -840,6 +944,8 @@ class DipStoreMachine(Machine):
             cfg["p_array"] = rng.choice([0.0, 0.2, 0.4])
             cfg["faults"] = [f for f in ("bad_value", "bad_dims", "declared_unset")
                              if rng.random() < 0.8]
+            # constraints travel with imported copies: import, then modify the copy
+            cfg["weights"]["import"] = rng.choice([0, 1, 2])
         if prop == "C17":
             cfg["refs"] = True
             cfg["files"] = rng.random() < 0.7
@@ -849,8 +955,13 @@ class DipStoreMachine(Machine):
             cfg["weights"].update({"inject": rng.choice([2, 4]), "import": rng.choice([1, 3]),
                                    "source": 2 if cfg["files"] else 0})
             cfg["io_faults"] = cfg["files"] and not fault_free and rng.random() < 0.6
+            cfg["weights"]["cmp"] = rng.choice([0, 1, 2])
+            cfg["callbacks"] = rng.random() < 0.4
+            cfg["weights"]["fn"] = 1 if cfg["callbacks"] else 0
             cfg["faults"] = [f for f in ("select_none", "missing_source", "import_none",
                                          "missing_file") if rng.random() < 0.7]
+            if cfg["callbacks"] and rng.random() < 0.7:
+                cfg["faults"].append("callback_raises")
         return cfg
 
     # ------------------------------------------------------------------ lifecycle
@@ -950,6 +1061,10 @@ class DipStoreMachine(Machine):
                     gen.s_injection()
                 elif k == "import":
                     gen.s_import()
+                elif k == "fn":
+                    gen.s_function()
+                elif k == "cmp":
+                    gen.s_compare()
             i += 1
         # split into chunks
         stmts = gen.stmts
@@ -1000,6 +1115,18 @@ class DipStoreMachine(Machine):
                       "unit": None})
 
     def _gen_fault(self, gen, fault, rng):
+        if fault == "other_type" and rng.random() < 0.4:
+            # the first value of a freshly declared node arrives with another data type
+            gen.s_definition(declare=True)
+            if gen.stopped or not gen.stmts or not gen.stmts[-1].get("declare"):
+                return
+            st = gen.stmts[-1]
+            t2 = rng.choice([t for t in ("float", "int", "bool", "str") if t != st["type"]])
+            v = {"float": 3.0, "int": 3, "bool": True, "str": "3"}[t2]
+            gen.fault_label = "other_type_first_value"
+            gen.emit({"k": "def", "indent": st["indent"], "name": st["name"], "type": t2,
+                      "value": v, "unit": st.get("unit") if t2 in ("int", "float") else None})
+            return
         if fault in ("other_type", "other_dimension", "constant", "bad_value"):
             gen.s_modification(fault)
         elif fault == "declared_unset":
@@ -1023,6 +1150,8 @@ class DipStoreMachine(Machine):
             gen.s_injection(fault)
         elif fault == "import_none":
             gen.s_import("select_none")
+        elif fault == "callback_raises":
+            gen.s_function("callback_raises")
         elif fault == "missing_file":
             gen.fault_label = "missing_file"
             gen.emit({"k": "source", "indent": 0, "name": "ghost",
@@ -1053,7 +1182,7 @@ class DipStoreMachine(Machine):
 
     def _tag(self, default, stmts, model):
         kinds = {st["k"] for st in stmts}
-        if kinds & {"inject", "import", "source"}:
+        if kinds & {"inject", "import", "source", "cmp_expr", "fn"} and self.cfg["prop"] != "C16":
             return "C17"
         if kinds & {"option", "options", "condition", "format"} or any(
                 n["options"] or n["condition"] is not None or n["format"] is not None
@@ -1120,6 +1249,9 @@ class DipStoreMachine(Machine):
         got, env, err = "commit", None, None
         try:
             p = DIP(base["env"], name=name) if base else DIP(name=name)
+            for st in all_stmts:
+                if st["k"] == "fn":
+                    p.add_function(st["fname"], make_callback(st, self.stats))
             for c, stmts in chunks:
                 if c["via"] == "file":
                     p.add_file(c["path"])
